@@ -341,6 +341,40 @@ fn mode_c16(seed: u64) {
     } } }
     mode_c06(seed ^ 0xC16);
 }
+// C03: ARBITRARY (mostly non-conformant) chunk sequences - interleaved partial messages, headers that inherit lengths shorter than
+// what is already buffered, random formats / lengths / extended timestamps, raw noise - must give Ok or Err, never a panic
+// (overflow checks are on in this build profile) and never a call that does not return.
+fn mode_c03(seed: u64) {
+    let mut rng = Rng(seed ^ 0xC03);
+    let lens = [0usize, 1, 5, 100, 127, 128, 129, 200, 256, 300, 0xFFFFFF];
+    for round in 0..6000u32 {
+        let mut bytes = vec![]; let mut desc = vec![];
+        let n = 1 + rng.next() % 7;
+        for _ in 0..n {
+            if rng.next() % 9 == 0 { let k = (rng.next() % 20) as usize; let noise: Vec<u8> = (0..k).map(|_| rng.next() as u8).collect(); desc.push(format!("noise{:02x?}", noise)); bytes.extend(noise); continue; }
+            let fmt = (rng.next() % 4) as u8;
+            let csid = rng.pick(&[3u32, 4, 4, 64, 320]);
+            let form = if csid <= 63 { 1 } else if csid <= 319 { rng.pick(&[2u8, 3]) } else { 3 };
+            let len = rng.pick(&lens);
+            let carried = std::cmp::min(rng.pick(&[0usize, 1, 50, 128, 128, 128, 130]), std::cmp::min(len, 4096));
+            let tsf = rng.pick(&[0u32, 1, 0xFFFFFE, 0xFFFFFF, 0x1000000, 0xFFFFFFFF]);
+            let ty = rng.pick(&[8u8, 9, 1, 20, 3]);
+            let data = if ty == 1 { let v = rng.pick(&[0u32, 1, 128, 0x7FFFFFFF, 0x80000000, 0xFFFFFFFF]).to_be_bytes().to_vec(); v[..std::cmp::min(carried, 4)].to_vec() } else { payload(carried, round as u8) };
+            bytes.extend(ref_chunk(fmt, csid, form, tsf, len as u32, ty, rng.pick(&[0u32, 1, 0xFFFFFFFF]), &data));
+            desc.push(format!("chunk(fmt={},csid={},form={},tsf={},len={},ty={},carried={})", fmt, csid, form, tsf, len, ty, data.len()));
+        }
+        for pieces in [vec![&bytes[..]], bytes.chunks(1).collect::<Vec<_>>(), bytes.chunks(13).collect::<Vec<_>>()] {
+            let (tx, rx) = std::sync::mpsc::channel();
+            let owned: Vec<Vec<u8>> = pieces.iter().map(|p| p.to_vec()).collect();
+            std::thread::spawn(move || { let mut d = ChunkDeserializer::new(); let refs: Vec<&[u8]> = owned.iter().map(|v| &v[..]).collect(); let r = real_decode(&mut d, &refs); let _ = tx.send(r.map(|v| v.len())); });
+            match rx.recv_timeout(std::time::Duration::from_secs(20)) {
+                Err(_) => witness(format!("[c03] arbitrary chunk sequence {} ({} pieces): the deserializer did not return within 20 s", desc.join(" "), pieces.len())),
+                Ok(Err(e)) if e.contains("PANIC") => witness(format!("[c03] arbitrary chunk sequence {} ({} pieces): {}", desc.join(" "), pieces.len(), e)),
+                Ok(_) => {}
+            }
+        }
+    }
+}
 fn mode_c19() {
     for &n in &[0u32, 0x80000000, 0xFFFFFFFF] {
         let mut s = ChunkSerializer::new();
@@ -385,6 +419,7 @@ fn main() {
         "c08" => mode_c08(seed),
         "c06" => mode_c06(seed),
         "c16" => mode_c16(seed),
+        "c03" => mode_c03(seed),
         "c19" => mode_c19(),
         _ => {}
     }
